@@ -265,7 +265,20 @@ Section S.
 End S.
 
 Theorem spec_model : forall i, spec i (model i) = true.
-Proof. intros [r d cs t q]. cbn [model spec]. apply spec_out_model. Qed.
+Proof.
+  intros [d cs t reqs]. cbn [model spec].
+  induction reqs as [|x reqs IH]; cbn [map spec_list]; [reflexivity|].
+  rewrite spec_out_model, IH. reflexivity.
+Qed.
+
+(* a really signed hint of another issuer - e.g. another host of the same provider - is rejected *)
+Theorem foreign_issuer_rejected pmatch uparse d cs (x : ereq) iss ex sub azp :
+  r_tok x = TSigned iss ex sub azp -> iss <> r_issuer x ->
+  exists s c, end_session pmatch uparse d cs (r_router x) (to_esreq x) = EPage s c None.
+Proof.
+  intros Ht Hn. apply hint_rules. unfold to_esreq, classify. cbn. rewrite Ht.
+  destruct (String.eqb iss (r_issuer x)) eqn:E; [apply String.eqb_eq in E; contradiction|reflexivity].
+Qed.
 
 (* ---- non-vacuity ---- *)
 Definition ex_cs : list lclient :=
